@@ -1,7 +1,10 @@
 (* C19, source positions: every source-map entry written by the walkers carries the start
    position of a node of the input tree (or the end position of a block / of the input, which is
-   what `@import` handling records when nothing follows).  The position can be that of a COMMENT
-   (D22): `next_including_whitespace` reads the position before it skips comments. *)
+   what `@import` handling records when nothing follows the keyword).
+   History: before fix c88801e `next_including_whitespace` read the position before skipping
+   comments, so a token preceded by a comment was mapped to the comment (D22, witness
+   `.c/*k*/.d{}`: the second `.` was mapped to column 2 instead of 7); the model now mirrors the
+   repaired code and the witness is an Example of the correct mapping below. *)
 From GE Require Import Model.Str Model.CssNum Model.CssTok Model.CssOut Model.CssUrlEnc Model.Css.
 From GE Require Import Proofs.CssOutProofs Proofs.CssWalkProofs.
 From Coq Require Import Lia.
@@ -94,20 +97,18 @@ Definition src_positions_ok (o : opts) (tree : list node) (endp : pos) : Prop :=
   forallb (fun e => mem_pos (e_src e) (endp :: nc_poss tree)) (o_map (w_normal (transform o tree endp))) &&
   forallb (fun e => mem_pos (e_src e) (endp :: nc_poss tree)) (o_map (w_low (transform o tree endp))) = true.
 
-Definition C19_src_is_token_start_full : Prop :=
-  forall o tree endp, src_positions_ok o tree endp.
-
 Definition d22_opts : opts := mkopts None None 1144750080 None false None.
-(* .c/*k*/.d{} *)
+(* .c/*k*/.d{} : the former D22 witness *)
 Definition d22_tree : list node :=
   [Leaf (TDelim 46) (mkpos 0 0); Leaf (TIdent [99]) (mkpos 0 1); Leaf (TComment [107]) (mkpos 0 2);
    Leaf (TDelim 46) (mkpos 0 7); Leaf (TIdent [100]) (mkpos 0 8);
    Block TCurly (mkpos 0 9) [] (mkpos 0 10) true].
 
-Theorem src_is_token_start_refuted : ~ C19_src_is_token_start_full.
-Proof.
-  intro H. specialize (H d22_opts d22_tree (mkpos 0 11)). vm_compute in H. discriminate.
-Qed.
+Example d22_witness_now_correct :
+  src_positions_ok d22_opts d22_tree (mkpos 0 11) /\
+  map (fun e => (e_dst_col e, p_col (e_src e))) (o_map (w_normal (transform d22_opts d22_tree (mkpos 0 11))))
+    = [(0, 0); (1, 1); (2, 7); (3, 8); (4, 9); (5, 9)].
+Proof. split; vm_compute; reflexivity. Qed.
 
 Lemma forallb_of_Forall_in : forall S (l : list entry),
   Forall (fun e => In (e_src e) S) l -> forallb (fun e => mem_pos (e_src e) S) l = true.
@@ -115,7 +116,7 @@ Proof.
   intros S l H. apply forallb_forall. intros e He. rewrite Forall_forall in H. apply mem_pos_in, H, He.
 Qed.
 
-Theorem src_is_token_start_except_known : forall o tree endp,
+Theorem src_is_token_start_no_comments : forall o tree endp,
   has_comment tree = false -> src_positions_ok o tree endp.
 Proof.
   intros o tree endp Hc. unfold src_positions_ok. rewrite (nc_poss_no_comment tree Hc).
@@ -123,7 +124,7 @@ Proof.
   apply andb_true_intro. split; apply forallb_of_Forall_in; unfold o_map; apply Forall_rev; assumption.
 Qed.
 
-Example src_is_token_start_except_known_inhabited :
+Example src_is_token_start_no_comments_inhabited :
   has_comment [Leaf (TDelim 46) (mkpos 0 0); Leaf (TIdent [99]) (mkpos 0 1); Leaf (TWs [32]) (mkpos 0 2);
                Leaf (TDelim 46) (mkpos 0 3); Leaf (TIdent [100]) (mkpos 0 4);
                Block TCurly (mkpos 0 5) [Leaf (TIdent [97]) (mkpos 0 6); Leaf TColon (mkpos 0 7);
